@@ -64,6 +64,8 @@ def _map(fn, a):
         of[i] = fn(x)
     if isinstance(arr, _np.ma.MaskedArray):
         out = _np.ma.MaskedArray(out, mask=_np.ma.getmaskarray(arr).copy())
+    elif out.ndim:
+        out = out.view(SymNDArray)
     if scalar and out.ndim == 0:
         return out[()]
     return out
@@ -271,6 +273,13 @@ class SymNDArray(_np.ndarray, metaclass=_NDMeta):
                 return NAN
             return r
         return sup()
+
+    def astype(self, dtype, *a, **k):
+        if self.dtype == object and _np.dtype(dtype).kind == 'f' and \
+                _has_sym(self):
+            # a float cast of symbolic reals is the identity in "real" mode
+            return self.copy()
+        return _np.ndarray.astype(self, dtype, *a, **k)
 
     def min(self, axis=None, out=None, keepdims=_np._NoValue, **k):
         return self._red('min', axis, keepdims, lambda: _np.ndarray.min(
@@ -510,6 +519,94 @@ def masked_values(x, value, rtol=1e-5, atol=1e-8, copy=True, shrink=True):
     return _np.ma.MaskedArray(data.copy() if copy else data, mask=mask)
 
 
+def isclose(a, b, rtol=1e-05, atol=1e-08, equal_nan=False):
+    if not (_needs(a) or _needs(b)):
+        return _np.isclose(a, b, rtol, atol, equal_nan)
+    import fractions
+    rt = fractions.Fraction(rtol).limit_denominator(10 ** 12)
+    at = fractions.Fraction(atol).limit_denominator(10 ** 12)
+    aa, bb = _np.broadcast_arrays(_objarr(a), _objarr(b))
+    out = _np.zeros(aa.shape, dtype=bool)
+    fl = out.reshape(-1)
+    for i, (x, y) in enumerate(zip(aa.reshape(-1), bb.reshape(-1))):
+        if isinstance(x, SymNaN) or isinstance(y, SymNaN):
+            fl[i] = False
+        else:
+            fl[i] = bool(abs(x - y) <= at + rt * abs(y))
+    return out if out.ndim else bool(out[()])
+
+
+def allclose(a, b, rtol=1e-05, atol=1e-08, equal_nan=False):
+    return bool(_np.all(isclose(a, b, rtol, atol, equal_nan)))
+
+
+class interp1d(object):
+    """scipy.interpolate.interp1d for kind='linear' along the last axis with
+    fill_value='extrapolate' (the only form the library uses), over symbolic
+    scalars; numeric inputs go to scipy itself"""
+
+    def __init__(self, x, y, kind='linear', axis=-1, copy=True,
+                 bounds_error=None, fill_value=float('nan'),
+                 assume_sorted=False):
+        self._real = None
+        if not (_needs(x) or _needs(y)):
+            from scipy.interpolate import interp1d as _i1
+            self._real = _i1(x, y, kind=kind, axis=axis, copy=copy,
+                             bounds_error=bounds_error,
+                             fill_value=fill_value,
+                             assume_sorted=assume_sorted)
+            return
+        if kind != 'linear' or axis not in (-1,) or \
+                not (isinstance(fill_value, str) and
+                     fill_value == 'extrapolate'):
+            raise NotImplementedError('interp1d stub: linear/extrapolate')
+        xs = list(_np.ma.getdata(_objarr(x)).reshape(-1))
+        ya = _objarr(y)
+        if len(xs) < 2:
+            raise ValueError('x and y arrays must have at least 2 entries')
+        if ya.shape[-1] != len(xs):
+            raise ValueError('x and y arrays must be equal in length along '
+                             'interpolation axis.')
+        # scipy sorts x (and y) unless assume_sorted
+        order = list(range(len(xs)))
+        if not assume_sorted:
+            for i in range(1, len(order)):      # insertion sort, forks
+                j = i
+                while j > 0 and xs[order[j]] < xs[order[j - 1]]:
+                    order[j], order[j - 1] = order[j - 1], order[j]
+                    j -= 1
+        self.x = [xs[i] for i in order]
+        self.y = ya[..., order]
+
+    def __call__(self, xnew):
+        if self._real is not None and not _needs(xnew):
+            return self._real(xnew)
+        if self._real is not None:
+            raise NotImplementedError('numeric interp1d on symbolic x')
+        xn = _objarr(xnew)
+        pts = list(xn.reshape(-1))
+        n = len(self.x)
+        cols = []
+        for v in pts:
+            j = n - 2
+            for k in range(n - 1):      # first interval whose top >= v
+                if v <= self.x[k + 1]:
+                    j = k
+                    break
+            t = (v - self.x[j]) / (self.x[j + 1] - self.x[j])
+            cols.append(self.y[..., j] * (1 - t) + self.y[..., j + 1] * t)
+        out = _np.empty(self.y.shape[:-1] + (len(pts),), dtype=object)
+        for k, c in enumerate(cols):
+            out[..., k] = c
+        return out.reshape(self.y.shape[:-1] + xn.shape)
+
+
+def make_scipy_interpolate_stub():
+    m = types.ModuleType('scipy.interpolate')
+    m.interp1d = interp1d
+    return m
+
+
 def make_numpy_shim():
     over = {
         'isscalar': lambda x: True if isinstance(x, (Sym, SymNaN))
@@ -543,6 +640,8 @@ def make_numpy_shim():
         over['round_'] = _round
 
     over['ndarray'] = SymNDArray
+    over['isclose'] = isclose
+    over['allclose'] = allclose
     over['sqrt'] = lambda a, **k: _map(sym_sqrt, a) if _needs(a) \
         else _np.sqrt(a, **k)
     ma_over = {
